@@ -63,12 +63,15 @@ CHECKS = {
     "C11": ("TLA+ spec Integrator (twin recorders over one physics) model-checked by TLC + Trace_Integrator on paired real requests",
             "TLC checks that every recorded row lies on the polyline of iteration points that no recorder influences, for two requests "
             "observing the same shot; real shots are fired with 8 request variants each: iteration pre-states bit-identical, common rows "
-            "equal to 64 ulp, extra = plain + event-flagged rows; the monitor checks the row-emission rule per iteration.",
+            "equal to 64 ulp, extra = plain + event-flagged rows (also with the record step aimed at each event and with requests shorter "
+            "than their step); the monitor checks the row-emission rule per iteration; the exact lattice world (Lattice.tla) is replayed "
+            "row by row (distance, time, height, derived columns) and its TLC-enumerated results are checked pairwise (plain subset of extra).",
             "Design model bounded (ranges <= 12 units, advances <= 4, <= 6 wind ends); real shots are seeded samples projected with a 1e-10 band on threshold predicates; hooks H1 must be present (PYBC_VERIF=1).", "DESIGN.md §4 C11"),
     "C12": ("TLA+ spec Integrator (wind sock by position) model-checked by TLC + behaviours replayed into the real _WindSock + "
             "Trace_Integrator per-iteration wind check and paired metamorphic runs",
             "TLC checks segment = number of boundaries reached for wind-end lists with duplicates/zeros/ends beyond range and refutes the "
-            "pinned one-segment-per-iteration sock; TLC behaviours drive the real sock with scrambled input order; in real shots the wind "
+            "pinned one-segment-per-iteration sock; Apalache discharges the same as an inductive invariant for unbounded integer ends and "
+            "positions (SockInd.tla) and finds the deviation's counterexample; TLC behaviours drive the real sock with scrambled input order; in real shots the wind "
             "vector used by every iteration must be the documented vector of the segment the projectile is in; order, causality, mirror, "
             "zero-wind and sign clauses on paired runs.",
             "Design model bounded (ranges <= 12 units, advances <= 4, <= 6 wind ends); real shots are seeded samples projected with a 1e-10 band on threshold predicates; hooks H1 must be present (PYBC_VERIF=1).", "DESIGN.md §4 C12"),
@@ -127,8 +130,10 @@ CHECKS = {
             "a solver that leaks per-call state; generated histories (fire plain/extra/timed, raising fire and zero, danger space, "
             "multi-BC build; shots sharing weapon/ammunition by reference) are replayed: every result must equal the same operation on "
             "freshly built objects with a fresh calculator, deep snapshots of all arguments, globals and shipped tables must not change; "
-            "every enumerated interleaving of 2 threads is executed with a deterministic scheduler at hook H1, plus free-running threads.",
-            "Histories sampled by TLC simulation (depth 6); schedules exhaustive for 2 threads x 3/4 blocks; preemption inside one loop "
+            "in-place edits of the ammunition by the caller (table, powder configuration, bullet dimensions, muzzle velocity) must be followed; "
+            "focused alphabets (one calculator, one shot) are enumerated exhaustively; every enumerated interleaving of 2 threads is executed "
+            "with a deterministic scheduler at hook H1 (calculators with different and with equal configuration), plus free-running threads.",
+            "Histories sampled by TLC simulation (depth 6) plus exhaustive focused alphabets (length 3, thorough 4); schedules exhaustive for 2 threads x 3/4 blocks; preemption inside one loop "
             "iteration only by free-running runs; hooks H1/H2 required.", "DESIGN.md §4 C10"),
     "C02": ("TLA+ spec ZeroFinder.tla (iteration protocol vs arbitrary environment) model-checked by TLC; Trace_ZeroFinder validates "
             "hook traces (H2) and API-boundary observations of real set_weapon_zero calls",
